@@ -198,6 +198,9 @@ def gen_history(rng):
     path = pick_path()
     live = len(sps)
     moved = False
+    # where the view lives: 'v'/'w' plain directories, 'l' below a symbolic link to a directory at another depth,
+    # 'n' = prefix=None (the default name 'view' in the working directory)
+    main = rng.choice(["v"] * 8 + ["l", "l", "n"])
     for v in range(nviews):
         if v > 0:
             for _ in range(rng.choice([0, 1, 1, 2, 3])):
@@ -232,13 +235,13 @@ def gen_history(rng):
             ids = []
         else:
             ids = sorted(rng.sample(range(64), rng.randint(1, 4)))
-        pname = rng.choice(["v", "v", "v", "w"]) if not moved else "d"
+        pname = rng.choice([main, main, main, "w"]) if not moved else "d"
         steps.append({"op": "view", "ids": ids, "path": path, "prefix": pname})
         if not moved and pname == "v" and v + 1 < nviews and rng.random() < 0.15:
             steps.append({"op": "mvview", "src": "v", "dst": "d"})
             moved = True
     return {"universe": kind, "jobs": [typed(sp) for sp in sps], "steps": steps,
-            "rel": rng.random() < 0.3}
+            "rel": rng.random() < 0.3, "plink": rng.random() < 0.1}
 
 
 # hand written histories for the input classes the design names (run first in every tier)
@@ -246,8 +249,8 @@ def fixed_histories():
     V = {"op": "view", "ids": None, "path": None, "prefix": "v"}
     H = []
 
-    def h(name, jobs, steps, rel=False):
-        H.append({"universe": name, "jobs": [typed(j) for j in jobs], "steps": steps, "rel": rel})
+    def h(name, jobs, steps, rel=False, plink=False):
+        H.append({"universe": name, "jobs": [typed(j) for j in jobs], "steps": steps, "rel": rel, "plink": plink})
 
     h("fix-empty", [], [V, V])
     h("fix-one", [{"a": 1}], [V, V])
@@ -298,6 +301,28 @@ def fixed_histories():
     h("fix-vanish-mixed", [{"a": ".", "b": "q"}, {"a": "", "b": "q"}, {"a": "q", "b": "x"}], [VS, dict(V, path="{a}/{b}")])
     h("fix-two-prefixes", [{"a": 1}, {"a": 2}, {"a": 3}],
       [V, dict(V, prefix="w", ids=[0, 1]), {"op": "remove", "i": 1}, V, dict(V, prefix="w")], rel=True)
+    # the spelling of a directory is not its location: view prefix below a symbolic link to a directory at another
+    # depth; project opened through a symbolic link
+    VL = dict(V, prefix="l")
+    h("fix-symlink-prefix", [{"a": 1}, {"a": 2}], [VL, {"op": "add", "sp": typed({"a": 3})}, VL])
+    h("fix-symlink-prefix-rel", [{"a": 1, "b": "x y"}, {"a": 2, "b": "x y"}], [dict(VL, ids=[0]), VL, dict(VL, path="a/{a}")],
+      rel=True)
+    h("fix-symlink-project", [{"a": 1}, {"a": 2}], [V, {"op": "add", "sp": typed({"a": 3})}, V, dict(V, ids=[1])], plink=True)
+    h("fix-symlink-both", [{"a": 1}, {"a": 2}], [VL, {"op": "remove", "i": 0}, VL], rel=True, plink=True)
+    # prefix=None: the view is 'view' in the working directory
+    VN = dict(V, prefix="n")
+    h("fix-default-prefix", [{"a": 1}, {"a": 2}],
+      [VN, {"op": "add", "sp": typed({"a": 3, "b": "é"})}, VN, dict(VN, ids=[0, 2]), {"op": "remove", "i": 0}, VN, dict(VN, ids=[])])
+    # the leaf name as the only key: the root link of the one-job view has to become a directory (finding 5b)
+    h("fix-jobkey-grow", [{JOB: 1}], [V, {"op": "add", "sp": typed({JOB: 2})}, V])
+    # selections on which a key that varies in the project is constant, and one-job selections: the expected paths
+    # spell the keys that distinguish the SELECTED jobs
+    grid = [{"a": a, "b": b, "c": "k"} for a in (1, 2) for b in ("x", "y y")]
+    h("fix-selection-paths", grid,
+      [dict(V, ids=[0]), dict(V, ids=[0, 1]), dict(V, ids=[0, 2]), dict(V, ids=[3]), V, dict(V, ids=[1, 2]), dict(V, ids=[2])])
+    h("fix-selection-paths-spec", grid,
+      [dict(V, ids=[0, 1], path="a/{a}/{{auto}}"), dict(V, ids=[1], path="a/{a}/{{auto}}"), dict(V, ids=[0, 2], path="{{auto}}"),
+       dict(V, ids=[2, 3], path="c_{c}/{{auto:_}}")], rel=True)
     return H
 
 
@@ -313,9 +338,25 @@ def gen_inputs(tier, rng):
 HEX32 = re.compile(r"[0-9a-f]{32}")
 
 
+LINKDIR = ["a", "lk"]                 # a symbolic link ...
+LINKDIR_TARGET = ["a", "b", "x", "k"]  # ... to a directory two levels deeper (relative target 'b/x/k')
+
+
 def loc(name):
-    """Components (below the case directory) of a view prefix: 'v', 'w' at depth 3, 'd' one level deeper."""
-    return ["a", "b", "x", name] if name == "d" else ["a", "b", name]
+    """Components (below the case directory) of a view prefix as it is SPELLED: 'v', 'w' at depth 3, 'd' one level
+    deeper, 'l' below the symbolic link a/lk, 'n' = the default prefix 'view' in the working directory a/."""
+    if name == "d":
+        return ["a", "b", "x", name]
+    if name == "l":
+        return LINKDIR + [name]
+    if name == "n":
+        return ["a", "view"]
+    return ["a", "b", name]
+
+
+def phys_loc(comps):
+    """Where a spelled location lies in the snapshot."""
+    return LINKDIR_TARGET + comps[2:] if comps[:2] == LINKDIR else comps
 
 
 SPEC_TOKEN = re.compile(r"\{\{auto(?::([^{}]*))?\}\}|\{job\.id\}|\{job\.sp\.([^{}]+)\}|\{([^{}]+)\}")
@@ -510,9 +551,13 @@ def run_case(desc):
         # deep enough that no relative link target of a case can climb to "/" (where ".." clamps)
         root = os.path.join(os.path.realpath(d0), *(["z"] * 16))
         os.makedirs(root)
-        pdir = os.path.join(root, "p")
-        os.makedirs(os.path.join(root, "a", "b", "x"))
-        project = signac.init_project(path=pdir)
+        os.makedirs(os.path.join(root, *LINKDIR_TARGET))
+        os.symlink(os.path.join(*LINKDIR_TARGET[1:]), os.path.join(root, *LINKDIR))
+        signac.init_project(path=os.path.join(root, "p"))
+        os.symlink("p", os.path.join(root, "pl"))
+        # the project as the user spells it: through the symbolic link pl -> p in some histories
+        pdir = os.path.join(root, "pl" if desc.get("plink") else "p")
+        project = signac.get_project(pdir)
         live = []   # state points of live jobs in creation order
 
         def subst(v):
@@ -581,9 +626,9 @@ def run_case(desc):
 
 
 def one_view(signac, _make_path_function, root, pdir, live, step, desc, si):
-    rel = desc.get("rel", False)
-    cwd = os.path.join(root, "a")
     name = step["prefix"]
+    rel = desc.get("rel", False) or name == "n"
+    cwd = os.path.join(root, "a")
     lc = loc(name)
     slc = lc[:-1] + ["s"]
     prefix = os.path.join(*lc[1:]) if rel else os.path.join(root, *lc)
@@ -643,7 +688,8 @@ def one_view(signac, _make_path_function, root, pdir, live, step, desc, si):
         p = signac.get_project(pdir)
         with Tracer(root) as tr:
             try:
-                r = p.create_linked_view(prefix=pref, job_ids=None if job_ids is None else list(job_ids), path=path)
+                r = p.create_linked_view(prefix=None if (name == "n" and pref == prefix) else pref,
+                                         job_ids=None if job_ids is None else list(job_ids), path=path)
                 res = ("Ok", [[k, v] for k, v in r.items()])
             except Exception as e:   # noqa: BLE001
                 res = ("Err", exn_class(e))
@@ -740,7 +786,7 @@ def one_view(signac, _make_path_function, root, pdir, live, step, desc, si):
 
     def view_of(n, name):
         try:
-            for c in (slc if name == "s" else loc(name)):
+            for c in phys_loc(slc if name == "s" else loc(name)):
                 n = n[1][c]
             return plain_node(n, ab)
         except (KeyError, TypeError):
@@ -759,7 +805,8 @@ def one_view(signac, _make_path_function, root, pdir, live, step, desc, si):
     kinds = ["universe:" + desc["universe"], "path:" + ("None" if path is None else type(path).__name__),
              "result:" + (res1[0] if res1[0] == "Ok" else res1[1]),
              "pre:" + ("existing" if view_of(pre, name) else "fresh"),
-             "sel:" + ("all" if job_ids is None else ("empty" if not job_ids else "subset")),
+             "sel:" + ("all" if job_ids is None else ("empty" if not job_ids else ("one" if len(job_ids) == 1 else "subset"))),
+             "prefix:" + {"l": "below-symlink", "n": "None"}.get(name, "plain") + ("/project-through-symlink" if desc.get("plink") else ""),
              "pf:" + ("computed-in-coq" if in_domain else "OUT-OF-DOMAIN")]
     d = dict(desc)
     d["case_step"] = si
@@ -771,9 +818,10 @@ def plain_without(n, name, ab):
     p = plain_node(n, ab)
     try:
         d = p
-        for c in loc(name)[:-1]:
+        pl = phys_loc(loc(name))
+        for c in pl[:-1]:
             d = d[c]
-        d.pop(name, None)
+        d.pop(pl[-1], None)
     except (KeyError, TypeError):
         pass
     return p
